@@ -1,5 +1,6 @@
 import PasetoModel.JsonParse
 import PasetoModel.CivilLemmas
+import PasetoModel.TsRead
 import PasetoModel.ClaimsLemmas
 /-! # C14 — RegisteredClaims / Json wire form -/
 namespace PM.C14
@@ -262,6 +263,29 @@ theorem timestamp_text_reads_back_partial (ns : Int)
 example : 0 ≤ (Json.civil (((1000000000123456789 : Int).fdiv 1000000000).fdiv 86400)).1 ∧
     (Json.civil (((1000000000123456789 : Int).fdiv 1000000000).fdiv 86400)).1 < 10000 ∧
     Json.readTs (Json.fmtTs 1000000000123456789) = 1000000000123456789 := by decide +kernel
+
+/-- **the timestamp text reads back to the instant written**, to the nanosecond, for every instant whose year is
+    −999999 … 9999 — a superset of jiff's `Timestamp` range (years −9999 … 9999), so for every timestamp the library can
+    hold.  `Json.readTsAny` takes the six-digit year after a leading `-`, the four-digit year otherwise. -/
+theorem timestamp_text_reads_back (ns : Int)
+    (hy0 : -1000000 < (Json.civil ((ns.fdiv 1000000000).fdiv 86400)).1)
+    (hy1 : (Json.civil ((ns.fdiv 1000000000).fdiv 86400)).1 < 10000) :
+    Json.readTsAny (Json.fmtTs ns) = ns :=
+  Json.readTsAny_fmtTs ns hy0 hy1
+
+/-- hence the text is injective on that range: two instants written the same are the same instant -/
+theorem timestamp_text_injective (a b : Int)
+    (ha0 : -1000000 < (Json.civil ((a.fdiv 1000000000).fdiv 86400)).1)
+    (ha1 : (Json.civil ((a.fdiv 1000000000).fdiv 86400)).1 < 10000)
+    (hb0 : -1000000 < (Json.civil ((b.fdiv 1000000000).fdiv 86400)).1)
+    (hb1 : (Json.civil ((b.fdiv 1000000000).fdiv 86400)).1 < 10000)
+    (h : Json.fmtTs a = Json.fmtTs b) : a = b := by
+  rw [← Json.readTsAny_fmtTs a ha0 ha1, ← Json.readTsAny_fmtTs b hb0 hb1, h]
+
+/-! non-vacuity: an instant in a year below 0, with a fraction -/
+example : (Json.civil (((-70000000000500000000 : Int).fdiv 1000000000).fdiv 86400)).1 < 0 ∧
+    -1000000 < (Json.civil (((-70000000000500000000 : Int).fdiv 1000000000).fdiv 86400)).1 ∧
+    Json.readTsAny (Json.fmtTs (-70000000000500000000)) = -70000000000500000000 := by decide +kernel
 
 /-! non-vacuity: 2000-02-29 and 1969-12-31 -/
 example : Json.civil 11016 = (2000, 2, 29) ∧ Json.daysFromCivil 2000 2 29 = 11016 ∧ Json.civil (-1) = (1969, 12, 31) := by
